@@ -167,31 +167,37 @@ def run_jobs(ctx, cases, built, per_job_timeout=180, run_env=None, wrapper=None)
     seq = ctx._jobfile_seq
 
     def run_one(si):
-        jobs = shard_jobs[si]
-        if not jobs:
+        alljobs = shard_jobs[si]
+        if not alljobs:
             return
         m = 'shard%d' % si
         if bins.get(m) is None:
             return
-        jp = os.path.join(ctx.work, 'jobs%d_%d.txt' % (si, seq))
-        op = os.path.join(ctx.work, 'out%d_%d.txt' % (si, seq))
-        core.write_jobs(jp, [job_dict(j) for j in jobs])
-        results, incidents = core.run_shard(bins[m], jp, op, len(jobs), per_job_timeout=per_job_timeout, env=run_env, wrapper=wrapper)
-        for j in jobs:
-            j.result = results.get(j.id)
-        for (idx, kind, detail) in incidents:
-            if idx < len(jobs):
-                jr = jobs[idx].result
-                if jr is None:
-                    jr = core.JobResult(jobs[idx].id)
-                    jobs[idx].result = jr
-                jr.crash = (kind, detail)
-            incidents_all.append((si, idx, kind, detail))
-        try:
-            os.remove(op)
-            os.remove(jp)
-        except OSError:
-            pass
+        # jobs with different meta['process'] keys run in separate OS processes (per-process configuration such as
+        # the lazily fixed shard count is then decided by each group's first job)
+        groups = {}
+        for j in alljobs:
+            groups.setdefault(j.meta.get('process', ''), []).append(j)
+        for gi, (pkey, jobs) in enumerate(groups.items()):
+            jp = os.path.join(ctx.work, 'jobs%d_%d_%d.txt' % (si, seq, gi))
+            op = os.path.join(ctx.work, 'out%d_%d_%d.txt' % (si, seq, gi))
+            core.write_jobs(jp, [job_dict(j) for j in jobs])
+            results, incidents = core.run_shard(bins[m], jp, op, len(jobs), per_job_timeout=per_job_timeout, env=run_env, wrapper=wrapper)
+            for j in jobs:
+                j.result = results.get(j.id)
+            for (idx, kind, detail) in incidents:
+                if idx < len(jobs):
+                    jr = jobs[idx].result
+                    if jr is None:
+                        jr = core.JobResult(jobs[idx].id)
+                        jobs[idx].result = jr
+                    jr.crash = (kind, detail)
+                incidents_all.append((si, idx, kind, detail))
+            try:
+                os.remove(op)
+                os.remove(jp)
+            except OSError:
+                pass
 
     with ThreadPoolExecutor(max_workers=core.NCPU) as ex:
         list(ex.map(run_one, range(nshards)))
